@@ -229,6 +229,16 @@ def hand_packages(rng):
     mid = H.hand_struct("Frame", [H.hand_embed(e), H.hand_field("Label", "string")])
     top = H.hand_struct("Echo", [H.hand_embed(mid), H.hand_field("id")])
     out.append(H.build_new_pkg([e, mid, top], ["-getset", "-json"], extra_feats=["hand-chain3"]))
+    # generic structs with three type-parameter GROUPS (one of them with two names): the type-parameter lists of NewT and of the
+    # receivers are put together from per-group tables (typeParams / typeParamsMap, the latter a Go map keyed by the group index) -
+    # the order in which a map hands out its entries must not show in them (12 process executions)
+    t3 = H.hand_struct("Triple", [H.hand_field("key", "K"), H.hand_field("val", "V"), H.hand_field("n")])
+    t3["tparams"] = [(["K"], "comparable"), (["V", "W"], "any"), (["X"], "comparable")]
+    q4 = H.hand_struct("Quad", [H.hand_field("a", "A"), H.hand_field("d", "D"), H.hand_field("label", "string")])
+    q4["tparams"] = [(["A"], "any"), (["B"], "comparable"), (["C"], "any"), (["D"], "comparable")]
+    gp = H.build_new_pkg([t3, q4], ["-opt"], extra_feats=["hand-generic-groups"])
+    gp["nexec"] = 12
+    out.append(gp)
     # map with chains of nested embedded pointer structs on both sides (nilCheckWrite: several pointer paths)
     # E1/EE: own field first; H1/HH: the embedded pointer first (the deepest field is met first and pulls ALL its pointer paths
     # out of the map in one range)
